@@ -39,6 +39,7 @@ def budget(tier):
 
 
 def strategy(tier):
+    N.enable_long_texts(tier == "thorough")
     if tier == "quick":
         combos = st.lists(S.strategy_args(), min_size=6, max_size=6)
     else:
